@@ -4,7 +4,9 @@
 //                                       reported by OnHeader must be the field given to the writer
 //   c03_header_replay defvar            positions of defined variables: common group / single constraint (algebraic, logical) /
 //                                       single objective, as EndCommonExpr reports them, against the NL format's definition
-//   exit 10 = a field / position is not read back as written
+//   c03_header_replay linear            a small linear model in every column-size mode with several bound shapes: column sizes, variable
+//                                       and constraint bounds and the J segments as the handler receives them
+//   exit 10 = a field / position / value is not read back as written
 #include <cstdio>
 #include <cstdlib>
 #include <cstring>
@@ -128,7 +130,56 @@ static int defvar_mode() {
   return 0;
 }
 
+// ---------------------------------------------------------------- a small linear model: column sizes, bounds, J / G vectors as fed
+struct LFeeder : mp::NLFeeder<LFeeder, int> {
+  bool binary = false; int mode = 1; std::vector<int> cols; double lb[4], ub[4];
+  mp::NLHeader Header() { mp::NLHeader h; h.format = binary ? mp::NLHeader::BINARY : mp::NLHeader::TEXT; h.num_vars = 4; h.num_algebraic_cons = 2; h.num_objs = 1; h.num_con_nonzeros = 6; h.num_obj_nonzeros = 1; return h; }
+  int WantColumnSizes() const { return mode; }
+  int ObjType(int) { return 0; }
+  template <class W> void FeedObjGradient(int, W &f) { auto w = f.MakeVectorWriter(1); w.Write(0, 1.0); }
+  template <class W> void FeedVarBounds(W &w) { for (int i = 0; i < 4; ++i) w.WriteLbUb(lb[i], ub[i]); }
+  template <class W> void FeedConBounds(W &w) { AlgConRange r; r.L = -INFINITY; r.U = 10; w.WriteAlgConRange(r); r.L = 1.5; r.U = 1.5; w.WriteAlgConRange(r); }
+  template <class W> void FeedLinearConExpr(int i, W &f) { auto w = f.MakeVectorWriter(3); w.Write(0, 1.0); w.Write(i == 0 ? 1 : 2, 0.25); w.Write(3, -3.0); }
+  template <class W> void FeedColumnSizes(W &w) { if (mode) for (int s : cols) w.Write(s); }
+};
+struct LHandler : mp::NullNLHandler<int> {
+  std::vector<int> sizes; std::vector<double> vlb, vub, clb, cub; std::vector<std::pair<int, double>> jac;
+  struct ColumnSizeHandler { std::vector<int> *v; void Add(int s) { v->push_back(s); } };
+  ColumnSizeHandler OnColumnSizes() { return ColumnSizeHandler{&sizes}; }
+  void OnVarBounds(int, double l, double u) { vlb.push_back(l); vub.push_back(u); }
+  void OnConBounds(int, double l, double u) { clb.push_back(l); cub.push_back(u); }
+  struct LinearConHandler { std::vector<std::pair<int, double>> *v; void AddTerm(int i, double c) { v->push_back({i, c}); } };
+  LinearConHandler OnLinearConExpr(int, int) { return LinearConHandler{&jac}; }
+};
+static int linear_mode() {
+  const double B[][2] = {{0, 1}, {-INFINITY, 5}, {2.5, INFINITY}, {-INFINITY, INFINITY}, {3, 3}, {-1e-300, 1.7976931348623157e308}, {0.1, 0.30000000000000004}};
+  for (int binary = 0; binary < 2; ++binary) for (int mode = 0; mode <= 2; ++mode) for (int b0 = 0; b0 < 7; ++b0) {
+    LFeeder f; f.binary = binary; f.mode = mode; f.cols = {2, 1, 1};
+    for (int i = 0; i < 4; ++i) { f.lb[i] = B[(b0 + i) % 7][0]; f.ub[i] = B[(b0 + i) % 7][1]; }
+    mp::NLUtils utl; std::string st = stub();
+    auto res = mp::WriteNLFile(st, f, utl);
+    if (res.first != NLW2_WriteNL_OK) { printf("write failed: %s\n", res.second.c_str()); return 2; }
+    LHandler h;
+    try { mp::ReadNLFile(st + ".nl", h); } catch (const std::exception &e) { if (bad++ < 8) printf("VIOLATED: the reader rejects what the writer wrote: %s\n", e.what()); }
+    std::remove((st + ".nl").c_str());
+    std::vector<int> want = mode ? f.cols : std::vector<int>();
+    if (h.sizes != want && bad++ < 8) { printf("VIOLATED: column sizes (mode %d, %s): fed {2,1,1}, read back {", mode, binary ? "binary" : "text"); for (int s : h.sizes) printf("%d,", s); printf("}\n"); }
+    for (int i = 0; i < 4 && i < (int)h.vlb.size(); ++i) {
+      double wl = f.lb[i] <= -1.7976931348623157e308 ? -INFINITY : f.lb[i], wu = f.ub[i] >= 1.7976931348623157e308 ? INFINITY : f.ub[i];
+      if ((h.vlb[i] != wl || h.vub[i] != wu) && bad++ < 8) printf("VIOLATED: bounds of variable %d written [%.17g, %.17g], read back [%.17g, %.17g]\n", i, f.lb[i], f.ub[i], h.vlb[i], h.vub[i]);
+    }
+    if (h.vlb.size() != 4 && bad++ < 8) printf("VIOLATED: %d variable bounds read back, 4 written\n", (int)h.vlb.size());
+    if ((h.clb.size() != 2 || h.clb[0] != -INFINITY || h.cub[0] != 10 || h.clb[1] != 1.5 || h.cub[1] != 1.5) && bad++ < 8) printf("VIOLATED: constraint bounds are not read back as written\n");
+    std::vector<std::pair<int, double>> wj = {{0, 1.0}, {1, 0.25}, {3, -3.0}, {0, 1.0}, {2, 0.25}, {3, -3.0}};
+    if (h.jac != wj && bad++ < 8) printf("VIOLATED: the linear parts of the constraints (J segments) are not read back as written\n");
+  }
+  if (bad) return 10;
+  printf("ok: column sizes, bounds and linear parts read back as fed\n");
+  return 0;
+}
+
 int main(int argc, char **argv) {
   if (argc > 1 && !strcmp(argv[1], "defvar")) return defvar_mode();
+  if (argc > 1 && !strcmp(argv[1], "linear")) return linear_mode();
   return header_mode(argc > 1 ? atoi(argv[1]) : 1, argc > 2 ? atoi(argv[2]) : 2000);
 }
